@@ -20,6 +20,7 @@ void worker_t::operator()() const
         task_t task;
 
         // wait for a new task to be available in the queue
+        NANO_VERIF_SCHED(4);
         {
             std::unique_lock lock(m_queue.m_mutex);
 
@@ -27,6 +28,7 @@ void worker_t::operator()() const
 
             if (m_queue.m_stop)
             {
+                NANO_VERIF_EVENT(::nano::verif::ev_worker_exit, &m_queue, m_tnum);
                 m_queue.m_tasks.clear();
                 m_queue.m_condition.notify_all();
                 break;
@@ -34,10 +36,13 @@ void worker_t::operator()() const
 
             task = std::move(m_queue.m_tasks.front());
             m_queue.m_tasks.pop_front();
+            NANO_VERIF_EVENT(::nano::verif::ev_worker_pop, &m_queue, m_tnum);
         }
 
         // execute the task
+        NANO_VERIF_SCHED(5);
         task(m_tnum);
+        NANO_VERIF_EVENT(::nano::verif::ev_worker_done, &m_queue, m_tnum);
     }
 }
 
@@ -48,6 +53,7 @@ void section_t::block(const bool raise)
         if (future.valid())
         {
             raise ? future.get() : future.wait();
+            NANO_VERIF_EVENT(::nano::verif::ev_future_visited, this, raise ? 1U : 0U);
         }
     }
 }
@@ -86,11 +92,15 @@ pool_t::~pool_t()
     {
         const std::scoped_lock lock(m_queue.m_mutex);
         m_queue.m_stop = true;
+        NANO_VERIF_EVENT(::nano::verif::ev_stop, &m_queue);
     }
+    NANO_VERIF_SCHED(6);
     m_queue.m_condition.notify_all();
+    NANO_VERIF_EVENT(::nano::verif::ev_notify_stop, &m_queue);
 
     for (auto& thread : m_threads)
     {
         thread.join();
     }
+    NANO_VERIF_EVENT(::nano::verif::ev_joined, &m_queue);
 }
